@@ -144,11 +144,24 @@ func runC08(c *Ctx) {
 		for _, u := range usesOfKind(usesIn(p.uses(r.FChanhCb), sc), "call") {
 			cb = u.At
 		}
-		if cb == nil || !inLoop(cb.Block()) {
+		viaHelper := false
+		if cb == nil {
+			// the loop body may live in a helper called from the loop (closeChanLocked(chid, hnd))
+			for _, u := range usesOfKind(p.uses(r.FChanhCb), "call") {
+				if u.Fn != sc && p.inCone(sc, u.At) {
+					cb, viaHelper = u.At, true
+				}
+			}
+		}
+		if cb == nil || !(inLoop(cb.Block()) || (viaHelper && inLoopIP(cb))) {
 			c.bad("R08.3", construct, p.pos(sc.Pos()), "the sink closer does not invoke each sink's callback inside its loop over the table")
 		} else {
 			uncond := true
-			for _, cf := range expandConds(impliedConds(cb.Block())) {
+			conds := impliedConds(cb.Block())
+			if viaHelper {
+				conds = impliedCondsIP(cb.Block(), 0)
+			}
+			for _, cf := range expandConds(conds) {
 				if ex, ok := cf.Cond.(*ssa.Extract); ok {
 					if _, ok := ex.Tuple.(*ssa.Next); ok {
 						continue
